@@ -210,7 +210,7 @@ def generate(rng, n=20, prefix="M"):
             out.append({"name": name, "text": ("-" if neg else "") + f, "kind": "float"})
         elif r < 0.84:
             s = rng.choice(["hello", "", "a\\\\b", "tab\\there", "nul\\0mid", "q\\\"uote", "\\x41\\x42", "\\101\\102", "caf\\xc3\\xa9", "100%", "new\\nline",
-                            "a" "\" \"" "b"])
+                            "a" "\" \"" "b", "ab\\0cd\\0", "\\0", "abc\" \"\\0", "x\\0\\0", "\\000", "end\\x00"])
             out.append({"name": name, "text": "\"%s\"" % s, "kind": "str"})
         elif r < 0.9:
             c = rng.choice(["'a'", "'\\0'", "'\\xff'", "'\\377'", "'\\n'", "'~'"])
